@@ -435,6 +435,9 @@ class Engine(InterpMixin, AttrMixin):
             slf = getattr(f, "__self__", None)
             if isinstance(slf, str) and any(self.contains_symbolic(a) for a in args):
                 return self.str_method(slf, f.__name__, args, kwargs)
+            if any(isinstance(a, SymOpt) for a in args) and (type(f).__name__ == "builtin_function_or_method" or isinstance(f, type)
+                                                             or getattr(f, "__module__", "") == "pyvc.builtins_model"):
+                args = [self.concretize(a) if isinstance(a, SymOpt) else a for a in args]
             return f(*args, **kwargs)
         raise Unsupported(f"call of {f!r}")
 
